@@ -222,8 +222,167 @@ def solve_all(work, budgets, cpu, timeout):
     return out
 
 
+def used_solver_problems(steps):
+    """The property on the enumerations of ONE goal made one after the other on the same solver.
+    steps: [(budget, Run)] in history order.  Returns a list of problems."""
+    probs = []
+    for j, (k, r) in enumerate(steps):
+        n = len(r.items)
+        if r.flags is None or len(r.flags) != n:
+            probs.append("enumeration %d: %d flags for %d items" % (j, len(r.flags or []), n))
+            continue
+        if n > k:
+            probs.append("enumeration %d (budget %d) yields %d items" % (j, k, n))
+        if r.complete != (n < k):
+            probs.append("enumeration %d (budget %d): returned %s with %d items" % (j, k, r.complete, n))
+        # how many items does the stream have?  known from this run if drained, else from a later, longer one
+        later = [len(r2.items) for (k2, r2) in steps[j + 1:]]
+        total_at_least = max([n] + later)
+        for i in range(n):
+            if i + 1 < n:
+                follows = True
+            elif r.complete:
+                follows = False
+            elif total_at_least > n:
+                follows = True
+            else:
+                follows = None
+            if follows is not None and r.flags[i] != follows:
+                probs.append("enumeration %d (budget %d): flag of item %d is %s but %s" % (
+                    j, k, i, r.flags[i], "another item follows" if follows else "no item follows"))
+        seen = set()
+        for it in r.items:
+            if it == "Floundered":
+                continue
+            if sx.to_sexp(it) in seen:
+                probs.append("enumeration %d: item yielded twice: %s" % (j, sx.to_sexp(it)))
+            seen.add(sx.to_sexp(it))
+        # the table is persistent: a later enumeration repeats the earlier one as a prefix
+        for (k2, r2) in steps[j + 1:]:
+            m = min(n, len(r2.items))
+            if [item_id(x) for x in r.items[:m]] != [item_id(x) for x in r2.items[:m]]:
+                probs.append("enumeration %d and a later one on the same solver disagree on their common prefix" % j)
+                break
+    return probs
+
+
+def history_stage(ctx, rng, work, fresh, defs, exprs, emeta, mexprs, mmeta, hist, not_eval):
+    """Enumerations on a USED solver: the goal solved first and then enumerated, enumerated twice,
+    enumerated partially and then again, enumerated after related goals that share its tables."""
+    K = KMAX + 1
+    cases, meta = [], []
+    for w, (p, text, goals) in enumerate(work):
+        idx = [gi for gi in range(len(goals)) if (w, gi) in fresh]
+        if not idx:
+            continue
+        chosen = idx[:1] + rng.sample(idx[1:], min(len(idx) - 1, ctx.n(1, 3)))
+        for n_c, gi in enumerate(chosen):
+            gt = pg.goal_text(goals[gi])
+            others = [pg.goal_text(goals[j]) for j in idx if j != gi]
+            pat = "twice" if n_c == 0 else rng.choice(["solve-first", "twice", "partial-first", "related-first"])
+            if pat == "related-first" and not others:
+                pat = "partial-first"
+            if pat == "solve-first":
+                gts, steps = [gt, gt, gt], ["S", ("M", K), ("M", K)]
+            elif pat == "twice":
+                gts, steps = [gt, gt], [("M", K), ("M", K)]
+            elif pat == "partial-first":
+                gts, steps = [gt, gt, gt], [("M", rng.choice([1, 2, 3])), ("M", K), ("M", K)]
+            else:
+                o = rng.choice(others)
+                gts, steps = [o, o, gt, gt], ["S", ("M", K), ("M", rng.choice([2, K])), ("M", K)]
+            cases.append(pg.case(text, gts, pg.SLG, ("HistoryMulti", steps), [("Cpu", ctx.n(4, 6))]))
+            meta.append((w, gi, pat, gts, steps))
+    res = logic.solve_cases(cases, timeout=ctx.n(600, 3000))
+    for (w, gi, pat, gts, steps), r in zip(meta, res):
+        p, text, goals = work[w]
+        gt = pg.goal_text(goals[gi])
+        if not r["ok"] or len(r["goals"]) != len(gts):
+            not_eval["history-case-failed"] += 1
+            continue
+        enum = []          # (budget, Run) for the enumerations of the goal under test
+        raw = []
+        dead = False
+        for t, st_, gr in zip(gts, steps, r["goals"]):
+            raw.append(sx.to_sexp(gr[1])[:1200] if gr[0] != "error" else "error")
+            if gr[0] == "error" or logic.is_death(gr[1]) or sx.head(gr[1]) == "Panic":
+                dead = True
+                break
+            if t == gt and st_ != "S":
+                rn = Run(gr[1])
+                if not rn.ok:
+                    dead = True
+                    break
+                enum.append((st_[1], rn))
+        if dead or not enum:
+            not_eval["history-died"] += 1
+            continue
+        hist["history:%s" % pat] += 1
+        key = hashlib.sha1((text + "##H##" + "|".join(gts) + sx.to_sexp(steps)).encode()).hexdigest()[:16]
+        ctx.count("history:" + p.shape, key, nontrivial=any(len(rn.items) >= 2 for _, rn in enum))
+        desc = {"shape": p.shape, "program": text, "goal": gt, "history": [[a, sx.to_sexp(b)] for a, b in zip(gts, steps)],
+                "answers": raw, "pattern": pat}
+        probs = used_solver_problems(enum)
+        if probs:
+            d = dict(desc)
+            d.update({"kind": "enumeration-mechanism-used-solver", "problems": probs[:5]})
+            ctx.violation(d)
+            continue
+        # against the fresh solver
+        flongest, prefix = fresh[(w, gi)]
+        last_k, last = enum[-1]
+        m = min(len(last.items), len(flongest.items))
+        if [item_id(x) for x in last.items[:m]] != [item_id(x) for x in flongest.items[:m]] or \
+                (last.complete and flongest.complete and len(last.items) != len(flongest.items)):
+            f = ctx.match_known(None, "F7-used-solver-coinductive") if any(t.coinductive for t in p.traits) else None
+            if f:
+                ctx.known_finding(f, gt)
+                hist["history:known-F7"] += 1
+            else:
+                d = dict(desc)
+                d.update({"kind": "used-solver-enumeration-differs-from-fresh", "fresh": sx.to_sexp(flongest.raw)[:1500]})
+                ctx.violation(d)
+            continue
+        # the model on a pre-filled table
+        ids, pre = {}, []
+        conj = []
+        for (k, rn) in enum:
+            evs_all = events_of(rn, ids)
+            pre_codes = [c for c in pre]
+            rest = evs_all[len(pre_codes):] if evs_all[:len(pre_codes)] == pre_codes else None
+            if rest is None:
+                pre_codes, rest = [], evs_all
+            exp = expected_codes(rn, ids)
+            conj.append("ns_eqb (model_run_used %d %s %s) %s" % (
+                k, sx.to_coq([int(x) for x in pre_codes]) if pre_codes else "[]",
+                sx.to_coq([int(x) for x in rest]) if rest else "[]", sx.to_coq([int(x) for x in exp])))
+            # what the table certainly holds afterwards: the observed answers (not the synthetic look-ahead event)
+            obs = [c for c in evs_all if c < 4 * 1000]
+            if len(obs) > len(pre):
+                pre = obs
+        mexprs.append(([], logic.bb(" && ".join(conj))))
+        mmeta.append((desc, [k for k, _ in enum]))
+        # the contract on the last enumeration of the used solver
+        if any(it != "Floundered" and it[3] is True for it in last.items):
+            continue
+        items = [eitem_model(it, p.symtab(), prefix) for it in last.items]
+        if any(x is None for x in items):
+            continue
+        g = goals[gi]
+        q, _ = pg.query_model(g, p.symtab())
+        drained = last.complete
+        cands = [[pg.ty_model(t, p.symtab(), None) for t in tup] for tup in cand_tuples(rng, p, g, ctx.n(30, 80))] if drained else []
+        qn = "qh%d_%d_%d" % (w, gi, len(exprs))
+        defs[qn] = ("query", q)
+        pname = "P%d" % w
+        exprs.append(([pname, qn], "verdict_code (check_enum %d %s [] %s %s %s %s)" % (
+            FUEL, pname, qn, sx.to_coq(items) if items else "[]", "true" if drained else "false",
+            ("(%s : list (list ty))" % sx.to_coq(cands)) if cands else "[]")))
+        emeta.append((desc, p, g, qn, pname, items, drained, len(cands), None))
+
+
 def run(ctx):
-    thms = ["push_answer_nodup", "yields_nodup", "flag_accurate", "solve_multiple_prefix", "peek_answer_total",
+    thms = ["flag_accurate_used", "yields_nodup_used", "push_answer_nodup", "yields_nodup", "flag_accurate", "solve_multiple_prefix", "peek_answer_total",
             "enum_alarm_sound", "enum_f14_refuted"]
     ok, why = ctx.proof_stage("Props.C03", thms)
     proof_broken = None if ok else why
@@ -241,6 +400,7 @@ def run(ctx):
     defs, exprs, emeta = {}, [], []          # contract checker
     mexprs, mmeta = [], []                   # model runs
     hist = collections.Counter()
+    fresh = {}
     for w, (p, text, goals) in enumerate(work):
         rs = {k: res[(w, k)] for k in budgets}
         if not all(r["ok"] for r in rs.values()):
@@ -270,6 +430,7 @@ def run(ctx):
                 continue
             key = hashlib.sha1((text + "##" + gt).encode()).hexdigest()[:16]
             longest = runs[budgets[-1]]
+            fresh[(w, gi)] = (longest, prefix)
             kinds = collections.Counter("Floundered" if it == "Floundered" else sx.head(it) for it in longest.items)
             drained = longest.complete
             hist["drained" if drained else "cut"] += 1
@@ -313,6 +474,11 @@ def run(ctx):
             if len(longest.items) >= 2:
                 ctx.sample({"program": text[:300], "goal": gt, "items": [sx.to_sexp(x)[:80] for x in longest.items[:4]],
                             "flags": longest.flags[:4], "drained": drained})
+
+    t_hist = time.time()
+    history_stage(ctx, rng, work, fresh, defs, exprs, emeta, mexprs, mmeta, hist, not_eval)
+    ctx.cov["phase_s"]["histories"] = round(time.time() - t_hist, 1)
+    t_c = time.time()
 
     imports = ("Engine.SlgTable",)
     mcodes, mfail = logic.coq_codes(ctx.work, "model", {}, mexprs, shard=max(80, len(mexprs) // 2 + 1), imports=imports)
